@@ -9,8 +9,8 @@ PL = "problog/library/lists.pl"
 EXPLANATION = (
     "Decides the clause-shape conditions of C32 on the Prolog text of problog/library/lists.pl (read with the clause reader also used for cut.pl); the "
     "probabilities themselves are not computed. The selection is a chain of binary choices, and the distribution is the documented one only if: SW1 the "
-    "choice fact is `P::sw_p(ID,P,..)`: its probability is its own second argument and the identifier is an argument (same identifier and position -> "
-    "same fact -> same choice); SW2 sw/6 has exactly three clauses; the single-element clause selects that element with certainty and leaves []; SW3 the "
+    "choice fact is `P::sw_p(ID,P,..)`: its probability is one of its own arguments and the identifier is an argument (same identifier and position -> "
+    "same fact -> same choice), and the calls pass a position witness (the remaining values or weights) so that equal elements at different positions are different facts; SW2 sw/6 has exactly three clauses; the single-element clause selects that element with certainty and leaves []; SW3 the "
     "select clause returns the head X of the value list and its tail XT as the rest (order kept), guarded by XT \\= [], with the conditional probability "
     "W1 is W/PW (weight of the head over the REMAINING mass) passed to a positive sw_p(ID,W1,WT,X,XT); SW4 the skip clause keeps X at the front of the "
     "rest ([X|RT]), has the same guard and the same W1 is W/PW, calls the NEGATION of sw_p with the same arguments as the select clause (so both "
@@ -93,14 +93,16 @@ def run(repo, col):
         ann, f, a = m.group(1), m.group(2), [_ws(x) for x in plreader.split_top(m.group(3), ",")]
         by.setdefault((f, len(a)), []).append((ann, a, [_ws(g) for g in goals], goals))
     # SW1
-    facts = by.get(("sw_p", 5), [])
-    if len(facts) != 1:
-        raise AnalysisError("lists.pl: the choice fact sw_p/5 not found (%d clauses)" % len(facts))
-    ann, a, goals, _ = facts[0]
-    decide("SW1", "P::sw_p(ID,P,_,_,_)", ann is not None and re.match("^%s$" % VAR, ann or "") is not None and a[1] == ann and not goals and a[0] != ann and re.match("^%s$" % VAR, a[0]) is not None
-           and not a[0].startswith("_"),
-           "sw_p is a fact whose probability is its second argument, with the identifier as first argument",
-           "the choice fact must be `P::sw_p(ID,P,_,_,_).`: annotated with its own second argument and carrying the identifier (found %s::sw_p(%s))" % (ann, ",".join(a)))
+    facts = [(k, v) for k, v in by.items() if k[0] == "sw_p"]
+    if len(facts) != 1 or len(facts[0][1]) != 1:
+        raise AnalysisError("lists.pl: the choice fact sw_p/N not found as a single clause")
+    (_, sw_arity), [(ann, a, goals, _)] = facts[0]
+    pidx = a.index(ann) if ann in a else None
+    decide("SW1", "P::sw_p(ID,P,..)", ann is not None and re.match("^%s$" % VAR, ann or "") is not None and pidx is not None and not goals
+           and all(re.match("^%s$" % VAR, x) for x in a) and len([x for x in a if not x.startswith("_")]) >= 2 and len(set(x for x in a if x != "_")) == len([x for x in a if x != "_"]),
+           "sw_p is a fact whose probability is one of its own arguments, general in all other arguments, with a named identifier argument",
+           "the choice fact must be `P::sw_p(ID,P,...)`: annotated with one of its own arguments, all arguments distinct variables, the identifier among them (found %s::sw_p(%s))" % (ann, ",".join(a)))
+    idpos = [i_ for i_, x in enumerate(a) if not x.startswith("_") and x != ann]
     # SW2..SW4
     sw = by.get(("sw", 6), [])
     decide("SW2", "sw/6 clauses", len(sw) == 3, "sw/6 has the three clauses last / select / skip", "sw/6 must consist of exactly three clauses (last element, select, skip); found %d" % len(sw))
@@ -147,8 +149,11 @@ def run(repo, col):
                 probs.append("exactly one positive sw_p call expected")
             else:
                 ca = _args(calls[0])
-                if ca is None or len(ca) != 5 or ca[0] != idv or ca[1] != w1[0]:
-                    probs.append("the choice must be sw_p(%s,%s,..): identifier first, conditional probability second (found %s)" % (idv, w1[0], calls[0]))
+                if ca is None or len(ca) != sw_arity or pidx is None or ca[pidx] != w1[0] or not idpos or any(ca[i_] != idv for i_ in idpos[:1]):
+                    probs.append("the choice must be sw_p(..) with the identifier %s in the identifier position and the conditional probability %s in the annotated position (found %s)" % (idv, w1[0], calls[0]))
+                elif xt not in ca and wt not in ca:
+                    probs.append("the choice fact must depend on the position in the list (the remaining values %s or weights %s must be an argument): otherwise equal elements with equal "
+                                 "conditional weight share one random fact and the later one can never be selected (found %s)" % (xt, wt, calls[0]))
                 else:
                     sel_call = (ca, {idv: "ID", pw: "PW", w: "W", wt: "WT", x: "X", xt: "XT", w1[0]: "W1"})
     decide("SW3", "sw/6 select clause", not probs, "select clause: head element, tail as rest, sw_p with W/PW",
